@@ -55,7 +55,8 @@ CONTRACTS += [
         returns="RdC(candle, name)",
         native_effect=_own_read_candle,
         props=["C20", "C13"],
-        assumed=True,  # the key-search loops over the two per-candle dicts are not yet verified against Rd
+        assumed=True,  # proved separately on the faithful model of a candle with symbolic dict keys
+        # (task reading_by_candle#faithful); the series-level Rd encodes the same lookup order (trusted link E5)
     ),
     Contract(
         "hexital.utils.candles.reading_by_index",
